@@ -157,6 +157,8 @@ def spec(req):
         if not keep:
             fs = [f for f in fs if f]
         return fields_line(fs)
+    if op == "tokcd":     # two-argument call: the default is "empty fields not asked for"
+        return fields_line([f for f in req[1].split(req[2]) if f])
     if op == "toks":
         s, d = req[1], req[2]
         if not d:
@@ -445,8 +447,9 @@ def replay(ck, harness, driver):
         return 2
     rf = ck.write("replay.txt", line + "\n")
     impl, _ = run_impl(ck, harness, rf, 1, jobs=1)
-    model = ck.run([driver], input=line + "\n").stdout.splitlines()
     r = parse_req(line)
+    mline = "tokc %s %s 0" % (hx(r[1]), hx(r[2])) if r[0] == "tokcd" else line
+    model = ck.run([driver], input=mline + "\n").stdout.splitlines()
     want = spec(r)
     ok = conv_match(want, impl[0]) if r[0] == "conv" else impl[0] == want
     print("request        : %s  %s" % (line, [show(x) if isinstance(x, bytes) else x for x in r[1:]]))
